@@ -1,30 +1,41 @@
 #!/bin/bash
-# usage: verify_mutant.sh <seeded-id> [--no-suite]
-# Confirms in a scratch worktree: the patch applies and compiles (with and without verif-hooks),
-# the demonstration passes without the patch and fails with it, and the existing suite passes with it.
-id=$1; S=/verif/seeded/$id; W=/tmp/ver-$id
+# usage: [VSLOT=a] [VTHREADS=8] verify_mutant.sh <seeded-id> [--no-suite]
+# Confirms in a scratch worktree of /repo (never /repo itself): the patch applies and compiles
+# (with and without verif-hooks), the demonstration passes without the patch and fails with it,
+# and the repository's existing test suite, unedited, passes with it.
+# A slot keeps one worktree (/tmp/ver-slot-$VSLOT) and one build directory (/tmp/vt-$VSLOT) that are
+# reused by consecutive runs of the same slot; remove both with `verify_mutant.sh --clean`.
+if [ "$1" = "--clean" ]; then
+  for w in /tmp/ver-slot-*; do [ -d "$w" ] && git -C /repo worktree remove --force $w 2>/dev/null; rm -rf $w; done
+  rm -rf /tmp/vt-*; git -C /repo worktree prune; exit 0
+fi
+id=$1; S=/verif/seeded/$id; slot=${VSLOT:-a}; W=/tmp/ver-slot-$slot; T=${VTHREADS:-8}
 [ -f $S/patch.diff ] || { echo "no patch for $id"; exit 2; }
-git -C /repo worktree remove --force $W 2>/dev/null; rm -rf $W
-git -C /repo worktree add -q --detach $W HEAD || exit 2
+head=$(git -C /repo rev-parse HEAD)
+if [ -d $W/.git ] || [ -f $W/.git ]; then
+  git -C $W checkout -q -- . && git -C $W clean -fdq && git -C $W checkout -q --detach $head || exit 2
+else
+  git -C /repo worktree add -q --detach $W $head || exit 2
+fi
 cd $W
-export SEEDED=$S
-res="{"
+export SEEDED=$S CARGO_TARGET_DIR=/tmp/vt-$slot
 bash $S/demo_cmd.sh > $S/confirm_demo_without.log 2>&1; d0=$?
 git apply $S/patch.diff || { echo "patch does not apply"; exit 2; }
-cargo check --offline -q -j 8 > $S/confirm_build.log 2>&1; b1=$?
-cargo check --offline -q -j 8 --features verif-hooks >> $S/confirm_build.log 2>&1; b2=$?
+cargo check --offline -q -j $T > $S/confirm_build.log 2>&1; b1=$?
+cargo check --offline -q -j $T --features verif-hooks >> $S/confirm_build.log 2>&1; b2=$?
 bash $S/demo_cmd.sh > $S/confirm_demo_with.log 2>&1; d1=$?
 suite="skipped"
 if [ "$2" != "--no-suite" ]; then
-  cargo nextest run --workspace --no-fail-fast --tool-config-file pb:/w/lib/nextest.toml --profile pb --test-threads 8 --offline > $S/confirm_suite.log 2>&1
+  cargo nextest run --workspace --no-fail-fast --tool-config-file pb:/w/lib/nextest.toml --profile pb --test-threads $T --offline > $S/confirm_suite.log 2>&1
   suite=$(grep -E "^\s+Summary" $S/confirm_suite.log | tail -1 | sed 's/^ *//')
   grep -E "^\s+(FAIL|TIMEOUT|SIGABRT|SIGSEGV|SIGTERM)" $S/confirm_suite.log | sort -u > $S/confirm_suite_failures.log
   gzip -f $S/confirm_suite.log
 fi
-python3 - "$id" "$d0" "$d1" "$b1" "$b2" "$suite" <<'PY'
-import json,sys
-id,d0,d1,b1,b2,suite=sys.argv[1:7]
-json.dump({"id":id,"demo_without_patch_exit":int(d0),"demo_with_patch_exit":int(d1),"compiles":int(b1)==0,"compiles_with_hooks":int(b2)==0,"suite_summary":suite,"repo_head":__import__('subprocess').run(['git','-C','/repo','rev-parse','--short','HEAD'],capture_output=True,text=True).stdout.strip()},open(f"/verif/seeded/{id}/confirm.json","w"),indent=1)
+git -C $W checkout -q -- . ; git -C $W clean -fdq
+python3 - "$id" "$d0" "$d1" "$b1" "$b2" "$suite" "$T" <<'PY'
+import json,sys,subprocess
+id,d0,d1,b1,b2,suite,t=sys.argv[1:8]
+head=subprocess.run(['git','-C','/repo','rev-parse','--short','HEAD'],capture_output=True,text=True).stdout.strip()
+json.dump({"id":id,"demo_without_patch_exit":int(d0),"demo_with_patch_exit":int(d1),"compiles":int(b1)==0,"compiles_with_hooks":int(b2)==0,"suite_summary":suite,"suite_threads":int(t),"repo_head":head},open(f"/verif/seeded/{id}/confirm.json","w"),indent=1)
 print(open(f"/verif/seeded/{id}/confirm.json").read())
 PY
-cd /; git -C /repo worktree remove --force $W; rm -rf $W
